@@ -147,6 +147,10 @@ type NamedBytes []byte
 type NamedString string
 type NamedInt int
 
+// NamedIntPtr is a named pointer type: encoding/json does not look through it
+// for the string option.
+type NamedIntPtr *int
+
 // KeyT is a map key implementing TextMarshaler by value; KeyPT by pointer.
 type KeyT struct{ A, B int }
 
